@@ -58,7 +58,7 @@ pub fn run(tier: &str, seed: u64) -> i32 {
     let thorough = tier == "thorough";
     std::panic::set_hook(Box::new(|_| {}));
     let dir = work_dir().join(format!("cxx-{tier}-{seed}"));
-    let (descs, built, dropped) = prepare(seed, tier, "C14", if thorough { 64 } else { 8 }, if thorough { 300 } else { 60 }, &dir);
+    let (descs, built, dropped) = prepare(seed, tier, "C14", if thorough { 64 } else { 8 }, if thorough { 120 } else { 60 }, &dir);
     let partial = match run_remote("C14", Backend::Cxx, seed, if thorough { (4000, 0) } else { (600, 0) }, &descs, &kf, 8, &|_w| Ok(CxxTarget::new(&built))) {
         Ok(p) => p,
         Err(e) => {
